@@ -71,6 +71,60 @@ def special_texts(rng, n):
     return out
 
 
+def sized_texts(rng, n):
+    """built-ins over LONG arguments (an implementation may change algorithm with the size - a hash index, chunks, a fast path -
+    and with it what it keeps between calls or the order of what it returns); the repeatability monitor compares the three
+    evaluations of the prepared evaluator, the scope monitor the scope"""
+    out = []
+    for _ in range(n):
+        L = rng.choice([17, 32, 33, 34, 48, 65, 100, 130, 257])
+        m = rng.choice([3, 7, L // 2 + 1, L - 1, L + 3])
+        kind = rng.randrange(4)
+        if kind == 0:
+            lst = 'for i in 1..%d return "s" + string(modulo(i * 7, %d))' % (L, m)
+        elif kind == 1:
+            lst = "for i in 1..%d return modulo(i * 7, %d)" % (L, m)
+        elif kind == 2:
+            lst = 'for i in 1..%d return if modulo(i, 3) = 0 then modulo(i, %d) else "s" + string(modulo(i, %d))' % (L, m, m)
+        else:
+            lst = 'for i in 1..%d return {k: modulo(i * 7, %d), s: "v" + string(i)}' % (L, m)
+        f = rng.randrange(16)
+        if f == 0:
+            t = "distinct values(%s)" % lst
+        elif f == 1:
+            t = "union(%s, %s)" % (lst, lst.replace("* 7", "* 5"))
+        elif f == 2:
+            t = "distinct values(%s)[1]" % lst
+        elif f == 3:
+            t = "union(%s, [1, \"s1\"])[-1]" % lst
+        elif f == 4:
+            t = "sort(%s, function(x, y) string(x) < string(y))" % lst
+        elif f == 5:
+            t = "index of(%s, %s)" % (lst, rng.choice(['"s1"', "1", "null"]))
+        elif f == 6:
+            t = "mode(%s)" % lst
+        elif f == 7:
+            t = "reverse(%s)" % lst
+        elif f == 8:
+            t = "flatten([%s, [%s]])" % (lst, lst)
+        elif f == 9:
+            t = "concatenate(%s, %s)" % (lst, lst)
+        elif f == 10:
+            t = "{a: distinct values(%s), b: count(a), c: a[b]}" % lst
+        elif f == 11:
+            t = "for x in distinct values(%s) return [x]" % lst
+        elif f == 12:
+            t = "(%s)[item != null]" % lst
+        elif f == 13:
+            t = "list contains(%s, na)" % lst
+        elif f == 14:
+            t = "[min(%s), max(%s)]" % (lst, lst)
+        else:
+            t = "remove(insert before(%s, 2, na), %d)" % (lst, L)
+        out.append(t)
+    return out
+
+
 SHADOWS = [
     ("max", "function(x, y) x + y", "max(1, 2)"),
     ("min", "function(x, y) x - y", "[min(5, 2), 1]"),
@@ -126,14 +180,14 @@ def run(rep, tier, seed):
     n_hist = 150 if tier == "quick" else 12000
     n_models = 300 if tier == "quick" else 20000
     rep.rule = (
-        "%d expressions forced through constructs that push temporary contexts (context literals, filters, for/some/every, invocations, unary tests) plus an eighth as many constructs that are left through an error or early exit (repeated context keys, wrong arity / unknown or repeated named arguments, non-list domains, non-boolean conditions, failing ordering functions) and a quarter as many filters over lists whose context elements carry entries named `item`, like variables in use or like names of the caller's scope, and the repository's own test and model expressions (unmutated), each parsed and evaluated 3x in scopes of 1-4 layers with the "
+        "%d expressions forced through constructs that push temporary contexts (context literals, filters, for/some/every, invocations, unary tests) plus an eighth as many constructs that are left through an error or early exit (repeated context keys, wrong arity / unknown or repeated named arguments, non-list domains, non-boolean conditions, failing ordering functions) and a sixteenth as many built-in calls over long lists (17-257 items; repeatability across a change of algorithm with the size) and a quarter as many filters over lists whose context elements carry entries named `item`, like variables in use or like names of the caller's scope, and the repository's own test and model expressions (unmutated), each parsed and evaluated 3x in scopes of 1-4 layers with the "
         "scope rendered before/after; %d histories of 200-2000 steps over 8 prepared evaluators x 4 long-lived scopes; successful parses through all six entry points; %d generated DMN models (boxed contexts, "
         "invocations, BKMs, services, tables) with every (invocable, input) pair called 3x interleaved in random order and once more on an evaluator built for that call alone; the repository's own example models (every invocable, three input contexts, each call repeated in random order and once alone); decision tables recognised from drawings evaluated twice over a caller's scope that holds more than their inputs. Distinct = (text | history | model call); non-trivial = evaluation produced a non-null value." % (n_expr, n_hist, n_models)
     )
     rep.assumptions = ["the scope's textual rendering (Display of the stack of contexts) is a faithful witness of its contents", "values depending on the current date (times of day in named zones) are not generated"]
     rng = rng_for(seed, "c13")
     # ---- 1. expressions: snapshot monitor -------------------------------------------------
-    texts = gen_texts(rng, n_expr) + special_texts(rng, n_expr // 4) + error_texts(rng, n_expr // 8)
+    texts = gen_texts(rng, n_expr) + special_texts(rng, n_expr // 4) + error_texts(rng, n_expr // 8) + sized_texts(rng, n_expr // 16)
     # the repository's own expressions (string literals of its FEEL tests, <text> of its models), unmutated: every
     # built-in and construct the authors exercised, here under the scope and repeatability monitors. Texts that read the
     # clock or iterate beyond the property's bound are left out.
@@ -192,7 +246,7 @@ def run(rep, tier, seed):
     for h in range(n_hist):
         evs = []
         pscope = layered_scope(rng)
-        for t in gen_texts(rng, 6) + special_texts(rng, 2) + error_texts(rng, 2):
+        for t in gen_texts(rng, 6) + special_texts(rng, 2) + error_texts(rng, 2) + sized_texts(rng, 1):
             evs.append({"entry": "expr", "text": t, "scope": pscope})
         scopes = [layered_scope(rng) for _ in range(4)]
         # names of built-in functions: unbound in two of the scopes (the built-in applies), bound to a user-defined
